@@ -573,18 +573,19 @@ static void crash_landing (void) {
 	to_main (f);
 	abort ();
 }
+long rt_watchdog_hits;      /* how often the watchdog has fired in this process (each costs seconds: callers stop after a few) */
 static void on_signal (int sig, siginfo_t *si, void *ucv) {
 	ucontext_t *uc = ucv;
-	if (sig == SIGPROF && (!G || !G->cur)) return;
+	if (sig == SIGVTALRM && (!G || !G->cur)) return;
 	if (!G || !G->cur) {
 		static const char m[] = "rt: fatal signal outside a fiber\n";
 		if (write (2, m, sizeof m - 1)) {}
 		_exit (2);
 	}
-	if (sig == SIGPROF) {
+	if (sig == SIGVTALRM) {
 		if (G->steps != G->alarm_steps) { G->alarm_steps = G->steps; return; }
 	}
-	if (sig == SIGPROF) rt_violation ("O-prog", "thread ran for several seconds of CPU time without reaching a scheduling point (unbounded loop on plain memory)");
+	if (sig == SIGVTALRM) { rt_watchdog_hits++; rt_violation ("O-prog", "thread ran for several seconds of CPU time without reaching a scheduling point (unbounded loop on plain memory)"); }
 	else rt_violation ("O-crash", "signal %d at address %p (nsync ASSERT failure or wild access)", sig, si->si_addr);
 	uc->uc_mcontext.gregs[REG_RIP] = (greg_t) (uintptr_t) crash_landing;
 	uc->uc_mcontext.gregs[REG_RSP] = (greg_t) (((uintptr_t) G->cur->stk + STK_SIZE / 2) & ~(uintptr_t) 15) - 8;
@@ -885,9 +886,9 @@ void rt_init (void) {
 	sigaction (SIGFPE, &sa, NULL);
 	sigaction (SIGILL, &sa, NULL);
 	sigaction (SIGABRT, &sa, NULL);
-	sigaction (SIGPROF, &sa, NULL);
+	sigaction (SIGVTALRM, &sa, NULL);
 	/* watchdog on the process's own CPU time (not wall time: a loaded machine must not look like a stuck thread) */
-	{ struct itimerval it; it.it_interval.tv_sec = 4; it.it_interval.tv_usec = 0; it.it_value = it.it_interval; setitimer (ITIMER_PROF, &it, NULL); }
+	{ struct itimerval it; it.it_interval.tv_sec = 4; it.it_interval.tv_usec = 0; it.it_value = it.it_interval; setitimer (ITIMER_VIRTUAL, &it, NULL); }      /* user-mode CPU time of this process only: neither waiting for a CPU nor page-fault / reclaim time on a loaded machine counts */
 }
 void rt_snapshot (void) {
 	if (__start_uutdata) {
